@@ -46,10 +46,11 @@ func LoadTable(path string) *SpecTable {
 }
 
 var genOps = []string{"+", "-", "*", "/", "=", ":=", "==", "!=", "<", "<-", "...", "&", "&&", "!", ".", ",", ";", ":", "{", "}", "(", ")", "[", "]", "|", "~", "++"}
-var genLits = []string{"1", "0", "42", "\"s\"", "\"a b\"", "2.5", "true"}
+var genLits = []string{"1", "0", "42", "\"s\"", "\"a b\"", "2.5", "true", "\"line\\n\\n\\nbreaks\"", "\"tab\\t \""}
+var genRawOps = []string{"`raw\n\n\nstring`", "`a\n\n\n\nb`"}
 var genIds = []string{"a", "b", "x", "f", "T", "err", "int", "string", "_"}
 var genPaths = []string{"fmt", "x/d", "y/d", "loc/al", "dot/p", "os", "C", "z/go"}
-var genComments = []string{"note", "a } b", "two\nlines", "ends\n", "x := 1", "see http://x//y"}
+var genComments = []string{"note", "a } b", "two\nlines", "ends\n", "x := 1", "see http://x//y", "blank\n\n\nlines inside", "  indented\n\n\n\n  more", "tab\tand trailing space "}
 
 type TreeGen struct {
 	r     *rand.Rand
@@ -63,8 +64,10 @@ func (g *TreeGen) atom() *Node {
 	switch k := r.Intn(100); {
 	case k < 28:
 		return idn(genIds[r.Intn(len(genIds))])
-	case k < 48:
+	case k < 46:
 		return opn(genOps[r.Intn(len(genOps))])
+	case k < 48:
+		return opn(genRawOps[r.Intn(len(genRawOps))])
 	case k < 58:
 		return kwn(g.t.Keywords[r.Intn(len(g.t.Keywords))])
 	case k < 72:
@@ -145,6 +148,10 @@ func (g *TreeGen) stmt(depth int) *Node {
 	}
 	items := []*Node{}
 	for i := 0; i < n; i++ {
+		if g.r.Intn(25) == 0 {
+			items = append(items, &Node{K: "nil"}) // Add(nil) inside a statement
+			continue
+		}
 		items = append(items, g.item(depth))
 	}
 	return stm(items...)
@@ -220,7 +227,7 @@ func damage(r *rand.Rand, t *SpecTable, body []*Node) []*Node {
 	}
 	n := all[r.Intn(len(all))]
 	i := r.Intn(len(n.Items))
-	switch r.Intn(5) {
+	switch r.Intn(6) {
 	case 0: // drop
 		n.Items = append(n.Items[:i:i], n.Items[i+1:]...)
 	case 1: // duplicate
@@ -234,6 +241,8 @@ func damage(r *rand.Rand, t *SpecTable, body []*Node) []*Node {
 			alts := []string{"block", "call", "index", "params", "values", "list", "case", "defs", "return", "if"}
 			n.Name = alts[r.Intn(len(alts))]
 		}
+	case 5: // a nil item inside a statement (documented to vanish)
+		n.Items = append(n.Items[:i:i], append([]*Node{{K: "nil"}}, n.Items[i:]...)...)
 	case 4: // stray token
 		n.Items = append(n.Items[:i:i], append([]*Node{opn(genOps[r.Intn(len(genOps))])}, n.Items[i:]...)...)
 	}
@@ -253,7 +262,7 @@ func ComposeDriverSeeded(tablePath string, n int, salt int64) [][]Action {
 		a := Action{A: "New", Prefix: []string{"", "", "pkg"}[r.Intn(3)], Local: []string{"", "", "loc/al"}[r.Intn(3)]}
 		switch r.Intn(6) {
 		case 0:
-			a.Preamble = []string{"#include <a.h>"}
+			a.Preamble = []string{"#include <a.h>", "int f();\n\n\nint g();"}
 		case 1:
 			a.Headers = []string{"Code generated. DO NOT EDIT."}
 			a.Comments = []string{"Package main is generated.", "second\nparagraph"}
